@@ -208,6 +208,97 @@ MULTI["G2-random-generators-pinned-to-main"] = [
                 all_arguments_sub, claimed_arguments_sub = self.discover(subgraph)"""),
 ]
 
+# ---- round 6: classes bordering on C04 that other checks were hit by
+# "loop-invariant hoisting" gone wrong: after the correct scoping, a body-only application none of whose
+# DIRECT operands is a formal of the Loop body moves out of the body - also when it depends on a formal
+# through another body-local value
+MULTI["A1-hoist-values-depending-on-formals"] = [
+    (B, """            self.scope_own[graph] = sorted(
+                graph_scope_set[graph], key=lambda nd: topo_index[nd]
+            )
+""", """            self.scope_own[graph] = sorted(
+                graph_scope_set[graph], key=lambda nd: topo_index[nd]
+            )
+        for graph in sorted(self.graphs, key=lambda g: -len(self.scope_own[g])):
+            owner = self.scope_tree.subgraph_owner.get(graph)
+            if owner is None or owner.op_type.identifier != "Loop":
+                continue
+            outer = self.scope_tree.scope_of[owner]
+            formals = {a._op for a in self.arguments_of[graph]}
+            for nd in list(self.scope_own[graph]):
+                deps = [v._op for v in nd.dependencies]
+                if not deps or isinstance(nd, Argument) or nd is self.source_of[graph]:
+                    continue
+                if next(iter(nd.subgraphs), None) is not None:
+                    continue
+                if all(d not in formals for d in deps) and any(self.scope_tree.scope_of[d] is graph for d in deps):
+                    self.scope_own[graph].remove(nd)
+                    at = self.scope_own[outer].index(owner)
+                    self.scope_own[outer].insert(at, nd)
+                    self.scope_tree.scope_of[nd] = outer
+"""),
+]
+# work-list instead of discovery order: update_scope_tree runs over a LIFO work-list fed with the bodies
+# found while a graph is traversed, not over the reversed discovery post-order
+MULTI["W1-scope-relaxation-over-a-work-list"] = [
+    (B, """        for graph in self.graph_topo:
+            self.update_scope_tree(graph)""", """        work, done = [self.main], set()
+        while work:
+            graph = work.pop()
+            if graph in done:
+                continue
+            done.add(graph)
+            self.update_scope_tree(graph)
+            iterative_dfs(
+                [self.source_of[graph]],
+                lambda nd: (a._op for a in nd.dependencies),
+                lambda nd: work.extend(nd.subgraphs),
+            )"""),
+]
+# arguments found by traversal are propagated upward one level only: with no requested argument list
+# (drop_unused_inputs=True) a model input read only at depth >= 2 is never found
+MULTI["D1-found-arguments-propagate-one-level"] = [
+    (B, """                all_arguments |= all_arguments_sub
+""", """                all_arguments |= getattr(self, "_used_in", {}).get(subgraph, set())
+"""),
+    (B, """        self.graph_topo.append(graph)
+
+        # Now we resolve which arguments we should get.""", """        self.graph_topo.append(graph)
+        if not hasattr(self, "_used_in"):
+            self._used_in = {}
+        self._used_in[graph] = set(used_arguments)
+
+        # Now we resolve which arguments we should get."""),
+]
+AD = "src/spox/_adapt.py"
+# module-level cache of adapted NodeProtos keyed by (node name, op type, target version): a later
+# build - of the same or of ANOTHER program in the process - gets a stale proto
+MULTI["C1-adapted-proto-cache-keyed-by-node-name"] = [
+    (AD, """    adapted = adapt_node(
+        node,
+        proto,
+        source_version,
+        target_version,
+        var_names,
+    )
+    return adapted""", """    ckey = (node_names[node], proto.op_type, target_version)
+    if ckey in _ADAPTED:
+        return _ADAPTED[ckey]
+    adapted = adapt_node(
+        node,
+        proto,
+        source_version,
+        target_version,
+        var_names,
+    )
+    if adapted is not None:
+        _ADAPTED[ckey] = adapted
+    return adapted
+
+
+_ADAPTED: dict = {}"""),
+]
+
 
 def sh(cmd, **kw):
     return subprocess.run(cmd, shell=True, capture_output=True, text=True, cwd=V, **kw)
@@ -241,11 +332,11 @@ def main():
             if replay is None and viol:
                 replay = re.search(r"replay=(\S+)", viol[0]).group(1)
             if replay:
-                rep_mut = sh(f"./check C04 --replay {replay}", timeout=300).returncode
+                rep_mut = sh(f"./check C04 --replay {replay}", timeout=1500).returncode
         finally:
             subprocess.run(["git", "-C", str(REPO), "checkout", "--", "."], check=True)
         if replay:
-            rep_clean = sh(f"./check C04 --replay {replay}", timeout=300).returncode
+            rep_clean = sh(f"./check C04 --replay {replay}", timeout=1500).returncode
         rows.append((name, r.returncode, sorted(set(fails)), broken, len(viol), rep_mut, rep_clean))
         print(rows[-1], flush=True)
     print()
